@@ -22,7 +22,12 @@ ESC = set(b"\a\b\f\n\r\t\v\\'\"?")
 
 
 def prepare(tier):
-    return {"ex_vm": build.executor("asan", "ex_vm")}
+    return {"ex_vm": build.executor("asan", "ex_vm"), "fz_fmt": build.executor("fuzz", "fz_fmt", extra_ldflags=["-fsanitize=fuzzer"])}
+
+
+# coverage-guided companion (libFuzzer, ASan): the same target as C14's; its second half round-trips every generated
+# Int / Float / String argument through show_to + look_from at a generated position with trailing text
+FUZZ = [{"target": "fz_fmt", "runs": {"quick": 40000, "thorough": 20000000}, "max_len": 256}]
 
 
 def _val():
